@@ -282,7 +282,7 @@ def decorate(behs, rnd, params):
             behs3.append(b)
         behs = behs3
     # ... and a share of the cancels is called as an API user calls it, with no refresh of the driver's before it
-    rshare = params.get("raw_cancel_share", 0.35)
+    rshare = params.get("raw_cancel_share", 0.25)
     behs6 = []
     for b in behs:
         behs6.append([dict(e, raw=True) if e.get("ev") == "cancel" and rnd.random() < rshare else e for e in b])
